@@ -375,7 +375,7 @@ def run(ctx):
 
         def h_ext(interp, dotted, a, k, n):
             if dotted == "json.dumps":
-                log.append(("json", a[0]))
+                log.append(("json", a[0], dict(k)))
                 return Sym("JSON", truthy=True, pytype=str)
             if dotted == "pathlib.Path":
                 p = a[0]
@@ -414,6 +414,11 @@ def run(ctx):
                 ok = out[0] == "return" and isinstance(resp, dict) and resp.get("code") == exp_code
                 r5.check(ok, f"main_cli[{desc}]", f"reports JSON code {exp_code} and does not crash", mc.loc(),
                          why_fail=f"outcome={out[0]} response={resp!r}")
+                jk = next((e[2] for e in log if e[0] == "json"), {})
+                # the report leaves through a log handler on stderr, whose encoding the tool does not choose (its error
+                # handler turns an unencodable character into a Python escape, which is not JSON): the text must be ASCII
+                r5.check(jk.get("ensure_ascii", True) is True and not jk.get("cls") and not jk.get("default"), f"main_cli.report encoding[{desc}]", "the JSON report is pure ASCII (json.dumps escapes every non-ASCII character), so any console can carry it", mc.loc(),
+                         why_fail=f"json.dumps options {jk!r}")
                 if ok and exp_code == 999:
                     m = resp.get("message")
                     r5.check(isinstance(m, Sym) and "EXCMSG" in m.tags, f"main_cli.message[{desc}]", "the JSON message is str(exception)", mc.loc())
